@@ -4,7 +4,10 @@ import NucsProofs.Propagators.CountEq
 import NucsProofs.Propagators.Counting
 import NucsProofs.Propagators.Dummy
 import NucsProofs.Propagators.Element
+import NucsProofs.Propagators.Lex
 import NucsProofs.Propagators.MinMax
+import NucsProofs.Propagators.NoSubCycle
+import NucsProofs.Propagators.Scc
 
 /-!
   C06 — a fully instantiated tuple that violates a constraint is always rejected.
@@ -27,15 +30,18 @@ theorem C06_elementLiv : GroundOk .elementLiv := groundOk_elementLiv
 theorem C06_elementLic : GroundOk .elementLic := groundOk_elementLic
 theorem C06_exactlyEq : GroundOk .exactlyEq := groundOk_exactlyEq
 theorem C06_exactlyTrue : GroundOk .exactlyTrue := groundOk_exactlyTrue
+theorem C06_lexLeq : GroundOk .lexLeq := groundOk_lexLeq
 theorem C06_maxEq : GroundOk .maxEq := groundOk_maxEq
 theorem C06_maxLeq : GroundOk .maxLeq := groundOk_maxLeq
 theorem C06_minEq : GroundOk .minEq := groundOk_minEq
 theorem C06_minGeq : GroundOk .minGeq := groundOk_minGeq
+theorem C06_noSubCycle : GroundOk .noSubCycle := groundOk_noSubCycle
 theorem C06_relation : GroundOk .relation := groundOk_relation
+theorem C06_scc : GroundOk .scc := groundOk_scc
 
 /-- algorithms for which `GroundOk` is stated (Spec.lean) but not proved here: validated by the
     correspondence and the brute-force oracle only -/
-def C06_unproved : List Alg := [.alldifferent, .gcc, .lexLeq, .noSubCycle, .scc]
+def C06_unproved : List Alg := [.alldifferent, .gcc]
 
 /-- on an instantiated box the call fails iff the tuple violates the relation -/
 theorem C06_point_iff (a : Alg) (hs : Sound a) (hg : GroundOk a) (hw : ∀ ps t, relW a ps t → rel a ps t)
